@@ -31,7 +31,8 @@ RULE = ("valid labelled segmentations with equal span starting at 0 on the 1/32 
 ASSUMPTIONS = [
     "labels are ASCII (Python's str.lower is Unicode-aware, the model's is not)",
     "Float (binary64) log/exp/sqrt of the Lean runtime and of numpy agree to 1e-9 on the entropy-based scores",
-    "ill-conditioned quotients (NMI with a zero-entropy side: denominator floored at 1e-10; AMI with "
+    "ill-conditioned quotients (NMI with a zero-entropy side: denominator floored at 1e-10 - since fix e9d8aa2 "
+    "negative rounding noise of MI is clipped to 0 there, positive noise (NMI up to ~6e-6) remains; AMI with "
     "max(H)-EMI at rounding level, i.e. both partitions all-singletons) are compared through numerator and "
     "tolerance 1e-9 + 4e-16/|denominator| (DESIGN 2.3); they are not 'valid' inputs of the property",
     "both annotations have exactly equal end times (np.allclose-equal but different ends are outside the model)",
@@ -603,8 +604,21 @@ def _fm(p, r, beta):
     return (1 + beta ** 2) * p * r / (beta ** 2 * p + r)
 
 
+def _empty_result(fn, ref, est, fs, scalar, **kw):
+    """Documented result on an empty annotation: 0.0 for the scalar metrics, (0, 0, 0) for the others."""
+    got = _call(fn, ref, est, fs, **kw)
+    if scalar:
+        if isinstance(got, (tuple, list, np.ndarray)) or float(got) != 0.0:
+            return "%s on an empty annotation returned %r, documented: the scalar 0.0" % (fn.__name__, got)
+    elif not (isinstance(got, tuple) and len(got) == 3 and all(float(x) == 0.0 for x in got)):
+        return "%s on an empty annotation returned %r, expected (0., 0., 0.)" % (fn.__name__, got)
+    return None
+
+
 def check_pairwise(inp):
     ref, est, fs, beta = _parse(inp)
+    if not ref or not est:
+        return _empty_result(S.pairwise, ref, est, fs, False)
     yr, ye = sample_frames(ref, fs), sample_frames(est, fs)
     s, a, b, n2 = textbook_pairs(yr, ye)
     got = _call(S.pairwise, ref, est, fs, beta=float(beta))
@@ -627,6 +641,8 @@ def check_pairwise(inp):
 
 def check_rand(inp):
     ref, est, fs, _ = _parse(inp)
+    if not ref or not est:
+        return _empty_result(S.rand_index, ref, est, fs, True)
     yr, ye = sample_frames(ref, fs), sample_frames(est, fs)
     s, a, b, n2 = textbook_pairs(yr, ye)
     if n2 == 0:
@@ -647,6 +663,8 @@ def check_rand(inp):
 
 def check_ari(inp):
     ref, est, fs, _ = _parse(inp)
+    if not ref or not est:
+        return _empty_result(S.ari, ref, est, fs, True)
     yr, ye = sample_frames(ref, fs), sample_frames(est, fs)
     s, a, b, n2 = textbook_pairs(yr, ye)
     if len(yr) == 0:
@@ -674,6 +692,8 @@ def check_ari(inp):
 
 def check_mi(inp):
     ref, est, fs, _ = _parse(inp)
+    if not ref or not est:
+        return _empty_result(S.mutual_information, ref, est, fs, False)
     yr, ye = sample_frames(ref, fs), sample_frames(est, fs)
     n = len(yr)
     if n == 0:
@@ -683,6 +703,9 @@ def check_mi(inp):
     mi = tb_mi(nij, a, b, n)
     if not close(got[0], mi):
         return "MI = %r, definition sum p_ij log(p_ij/(p_i p_j)) gives %r" % (got[0], mi)
+    if got[0] < 0 or got[2] < 0:
+        return ("MI = %r, NMI = %r: mutual information is non-negative by definition (Lean: mi_nonneg); the code "
+                "clips rounding noise at 0" % (got[0], got[2]))
     hr, he = tb_entropy(a.values(), n), tb_entropy(b.values(), n)
     kr, ke = len(a), len(b)
     if kr == 1 and ke == 1:
@@ -725,6 +748,8 @@ def _tb_nce(yr, ye, marginal):
 
 def _check_nce_like(fn, kw, marginal, name, inp):
     ref, est, fs, beta = _parse(inp)
+    if not ref or not est:
+        return _empty_result(fn, ref, est, fs, False, **kw)
     yr, ye = sample_frames(ref, fs), sample_frames(est, fs)
     if len(yr) == 0:
         return None
@@ -760,6 +785,8 @@ def check_vmeasure(inp):
     if r:
         return r
     ref, est, fs, beta = _parse(inp)
+    if not ref or not est:
+        return None
     v = tuple(map(float, _call(S.vmeasure, ref, est, fs, beta=float(beta))))
     m = tuple(map(float, _call(S.nce, ref, est, fs, beta=float(beta), marginal=True)))
     if v != m and not all(math.isnan(x) and math.isnan(y) or x == y for x, y in zip(v, m)):
@@ -795,6 +822,12 @@ def _oracle_gen(site):
                 est = unit_segments(seqs_b, rng.choice(NAMINGS), rng)
                 fs = Fr(1)
             beta = rng.choice([Fr(1), Fr(1), Fr(1, 2), Fr(2)])
+            if rng.random() < 0.03:
+                # an empty side: every metric has a documented early return
+                if rng.random() < 0.5:
+                    ref = []
+                else:
+                    est = []
             yield _json_input(ref, est, fs, beta)
     return gen
 
